@@ -19,6 +19,9 @@ func init() {
 }
 
 func runC12(c *Ctx, r *Report) {
+	// an invalid time field leaves the message's field untouched: that is the base time only because every
+	// record is decoded into a fresh all-invalid message (obligation 6 of C03, run here too)
+	c03MessageFlows(c, r)
 	// the reference time of a file starts empty: per-file decoder state (perfile.go)
 	perFileRule(c, r, "C12-R5-per-file-state", []string{"timestamp", "lastTimeOffset"}, "the reference time of the previous file is used for compressed timestamps and local-time offsets of the next file before its own first timestamp")
 	mask, _ := c.constInt(c.fit, "compressedTimeMask")
